@@ -28,6 +28,10 @@ def compare(ctx, rule, inst, code: Val, spec: Val, fi, key, strict_idiom=True):
     """value-number comparison with the idiom gate"""
     if same(code, spec) or (isinstance(code, Num) and isinstance(spec, Num) and code.struct_eq(spec)):
         return ctx.ok(rule, inst, '', fi.loc(), fi.qualname, key)
+    from .common import expand_linspace
+    ce, se = expand_linspace(code), expand_linspace(spec)
+    if same(ce, se) or (isinstance(ce, Num) and isinstance(se, Num) and ce.struct_eq(se)):
+        return ctx.ok(rule, inst, 'equal element by element with linspace(s, e, k)[i] = s + i*(e - s)/(k - 1)', fi.loc(), fi.qualname, key)
     hc, hs = heads(code), heads(spec)
     from .common import tolerance_heads
     tol = [h for h in tolerance_heads(code) if 'lib:' + h not in hs]
